@@ -368,8 +368,32 @@ def source_facts(repo_src: pathlib.Path):
     # the interpreter version is counted as part of the tool version (declared input); anything else is ambient
     facts["platform_version_audit_off_only"] = set(ungated) <= {"platform.python_version"}
 
-    # 4. now_utc is the only time source of the environment and is set per file from the clock
+    # 4. the line post-processors are reset per file
     facts["line_pp_reset_per_file"] = line_pp_reset_per_file(repo_src)
+
+    # 5. cached_property keeps its value per instance: __get__ stores into instance.__dict__ and assigns nothing on the descriptor
+    fn = find_def("nunavut/_utilities.py", "__get__", "cached_property")
+    dict_names, stores_in_instance, stores_on_self = set(), False, False
+    for node in ast.walk(fn):
+        if isinstance(node, ast.Assign):
+            for t in node.targets:
+                if isinstance(t, ast.Name) and Scanner._dotted(node.value) == "instance.__dict__":
+                    dict_names.add(t.id)
+    for node in ast.walk(fn):
+        if isinstance(node, (ast.Assign, ast.AugAssign, ast.AnnAssign)):
+            targets = node.targets if isinstance(node, ast.Assign) else [node.target]
+            for t in targets:
+                if isinstance(t, ast.Subscript) and (Scanner._dotted(t.value) == "instance.__dict__" or (isinstance(t.value, ast.Name) and t.value.id in dict_names)):
+                    stores_in_instance = True
+                if isinstance(t, ast.Attribute) and isinstance(t.value, ast.Name) and t.value.id == "self":
+                    stores_on_self = True
+        if isinstance(node, ast.Call) and (Scanner._dotted(node.func) or "") in ("setattr", "object.__setattr__") and node.args:
+            a0 = node.args[0]
+            if isinstance(a0, ast.Name) and a0.id == "instance":
+                stores_in_instance = True
+            if isinstance(a0, ast.Name) and a0.id == "self":
+                stores_on_self = True
+    facts["cached_property_per_instance"] = bool(stores_in_instance and not stores_on_self)
     return facts
 
 
@@ -1257,6 +1281,8 @@ def emit_top(facts) -> str:
             f"def platformVersionAuditOffOnly : Bool := {b(facts['platform_version_audit_off_only'])}",
             "/-- The line post-processors are put into their initial state at the start of every file. -/",
             f"def linePPResetPerFile : Bool := {b(facts['line_pp_reset_per_file'])}",
+            "/-- `cached_property.__get__` stores the value in `instance.__dict__` and nothing on the descriptor. -/",
+            f"def cachedPropertyPerInstance : Bool := {b(facts['cached_property_per_instance'])}",
             "end NunavutVerif.Gen.TplFlows", ""]
     return "\n".join(out)
 
